@@ -100,11 +100,15 @@ pub struct SchedKnobs {
     pub busy_k: u32,
     /// Max extra nanoseconds a runner timer (retry sleeper) oversleeps (log-uniform), 0 = exact.
     pub oversleep_ns: u64,
+    /// Probability (per mille, per received event) that the consumer of the event stream stalls
+    /// (yield or virtual delay) before asking for the next event: the runner is then not polled.
+    #[serde(default)]
+    pub consumer_pm: u32,
 }
 
 impl Default for SchedKnobs {
     fn default() -> Self {
-        Self { seed: 1, batch: 1, spurious_pm: 0, busy_k: 2, oversleep_ns: 0 }
+        Self { seed: 1, batch: 1, spurious_pm: 0, busy_k: 2, oversleep_ns: 0, consumer_pm: 0 }
     }
 }
 
@@ -142,6 +146,8 @@ pub struct SchedStats {
     pub oversleeps: u64,
     pub max_clock_ns: u64,
     pub quiescent_points: u64,
+    #[serde(default)]
+    pub consumer_stalls: u64,
 }
 
 struct TimerEntry {
